@@ -13,6 +13,9 @@
 //!   blk <id> k=v …           a block: header fields, body features, and the oracle values of its
 //!                            own context (expected epoch/target/dao/reward/chain root, resolution)
 //!   submit <id> now=<ms>     → `<attached|stored|known|err CLASS> tip=<id> st=<valid|stored|invalid|unknown>`
+//!   idx n=<ids> t=<txs> h=<height> e=<epoch>
+//!                            → the rows of the columns `attach_block` / `detach_block` maintain:
+//!                              `main=<id:number,…> uncles=<id:number,…> at=<number:id,…> tx=<tx:block:number,…> ep=<epoch:id,…>`
 //!
 //! Oracle (independent of the model): a block the generator built as valid and heaviest is
 //! attached and becomes the tip; a block built with a single-rule violation is rejected, and the
@@ -479,6 +482,17 @@ struct Case<'a> {
     pending: Vec<(TransactionView, u64)>,
     salt: u64,
     rules_hit: HashSet<String>,
+    /// scratch directory of the case
+    dir: std::path::PathBuf,
+    /// reference store of a second branch (the one that is not `refstore`'s) during a reorg scenario
+    extra_ref: Option<RefStore>,
+    /// lock-step reference node: it received ONLY the main chain as of its start (no abandoned
+    /// branches, no refused blocks) and from then on every block the node under test receives
+    fresh: Option<Node>,
+    fresh_n: u32,
+    /// a block built as violating became the tip (already reported by the oracle): the harness's
+    /// picture of the main chain no longer holds, the case stops
+    derailed: bool,
 }
 
 fn state_digest(node: &Node) -> String {
@@ -530,6 +544,9 @@ impl Case<'_> {
         let known = self.builder.blocks.contains_key(parent);
         let lines: Vec<String> = if &self.refstore.tip == parent {
             let db = &self.refstore.db;
+            todo.iter().map(|b| describe(&mut self.ids, &self.consensus, Some(db), self.cyc, b)).collect()
+        } else if self.extra_ref.as_ref().map(|r| &r.tip == parent).unwrap_or(false) {
+            let db = &self.extra_ref.as_ref().unwrap().db;
             todo.iter().map(|b| describe(&mut self.ids, &self.consensus, Some(db), self.cyc, b)).collect()
         } else if known && todo.iter().all(|b| b.transactions().len() == 1 && matches!(self.builder.blocks.get(&b.hash()), Some(_)) && self.inplace.contains(&b.hash())) {
             // cellbase-only blocks the builder attached in place: its store (tip = the block) answers
@@ -583,23 +600,14 @@ impl Case<'_> {
         let tip_before = self.node.tip_hash();
         let guard = ckb_systemtime::faketime();
         guard.set_faketime(now);
-        let verdict: Result<bool, String> = {
-            let guard_snapshot = self.node.shared.snapshot();
-            let snapshot: &ckb_snapshot::Snapshot = &guard_snapshot;
-            match HeaderVerifier::new(snapshot, &self.consensus).verify(&blk.header()) {
-                Err(e) => Err(format!("{:?}", e)),
-                Ok(()) => {
-                    if snapshot.get_block_header(&parent).is_none() {
-                        Err("UnknownParent(rpc)".to_string())
-                    } else {
-                        let t1 = std::time::Instant::now();
-                        let r = self.node.controller().blocking_process_block(Arc::new(blk.clone())).map_err(|e| format!("{:?}", e));
-                        self.t_process += t1.elapsed();
-                        r
-                    }
-                }
-            }
-        };
+        let t1 = std::time::Instant::now();
+        let verdict: Result<bool, String> = pipeline(&self.node, &self.consensus, blk);
+        self.t_process += t1.elapsed();
+        // the same block through the same pipeline of the lock-step reference node
+        let fresh_verdict: Option<(String, bool)> = self.fresh.as_ref().map(|f| {
+            let r = pipeline(f, &self.consensus, blk);
+            (verdict_name(&r, f.tip_hash() == blk.hash()), f.tip_hash() == blk.hash())
+        });
         drop(guard);
         let after = state_digest(&self.node);
         let tip_after = self.node.tip_hash();
@@ -623,6 +631,17 @@ impl Case<'_> {
         let st = if v == "err badparent" { "na" } else { st };
         let tip_id = self.ids.block(&tip_after);
         self.out.op(&format!("submit {} now={}", id, now), &format!("{} tip={} st={}", v, tip_id, st));
+        // ---- oracle: the verdict must not depend on abandoned branches — a node that only ever saw
+        // the main chain (as of the last reorg) and the same later blocks answers the same
+        if let Some((fv, ftip)) = fresh_verdict {
+            self.out.count("fresh-node:compared");
+            if fv != v || ftip != (tip_after == blk.hash()) {
+                self.out.oracle_fail(
+                    "verdict-depends-on-abandoned-branch",
+                    &format!("rule={} block {} ({:#x}): node with reorg history says `{}`, a node that received only the main chain says `{}`", rule, id, blk.hash(), v, fv),
+                );
+            }
+        }
         self.out.count(&format!("{:?}:{}", intent, v));
         self.rules_hit.insert(format!("{}:{:?}", rule, intent));
         self.out.count(&format!("rule:{}={}", rule, v));
@@ -659,7 +678,33 @@ impl Case<'_> {
             }
         }
         if verdict.is_ok() && tip_after == blk.hash() {
+            if matches!(intent, Intent::Invalid | Intent::Doomed) {
+                self.derailed = true;
+            }
             self.tip = blk.hash();
+        }
+    }
+
+    /// `idx` op: the store indexes of the node under test; the model answers with the indexes its
+    /// attach/detach model maintained through the same history. Oracle (implementation only): the
+    /// lock-step reference node, which never detached anything, has the same rows.
+    fn dump_index(&mut self) {
+        let tip = self.node.tip();
+        let top = tip.number() + 3;
+        let top_epoch = tip.epoch().number() + 1;
+        let d = idx_dump(&self.ids, self.node.store(), top, top_epoch);
+        self.out.op(&format!("idx n={} t={} h={} e={}", self.ids.blocks.len(), self.ids.txs.len(), top, top_epoch), &d);
+        if let Some(f) = &self.fresh {
+            if f.tip_hash() == tip.hash() {
+                let fd = idx_dump(&self.ids, f.store(), top, top_epoch);
+                self.out.count("fresh-node:index-compared");
+                if fd != d {
+                    self.out.oracle_fail(
+                        "index-depends-on-abandoned-branch",
+                        &format!("store indexes of the node with reorg history: `{}`; of a node that received only the main chain: `{}`", d, fd),
+                    );
+                }
+            }
         }
     }
 
@@ -687,6 +732,74 @@ impl Case<'_> {
             }
             h = b.parent_hash();
         }
+    }
+}
+
+/// The rows of the attach/detach-maintained columns, canonically: `COLUMN_INDEX` hash ↦ number for
+/// every hash the case knows (blocks, uncles, uncle parents), `COLUMN_UNCLES` hash ↦ header number,
+/// `COLUMN_INDEX` number ↦ hash up to a few heights above the tip, `COLUMN_TRANSACTION_INFO` for every
+/// transaction of a described block, the epoch-number rows of `COLUMN_EPOCH` above epoch 0.
+fn idx_dump(ids: &Ids, store: &ChainDB, top: u64, top_epoch: u64) -> String {
+    let mut blocks: Vec<(u64, Byte32)> = ids.blocks.iter().map(|(h, i)| (*i, h.clone())).collect();
+    blocks.sort_by_key(|e| e.0);
+    let name = |h: &Byte32| ids.blocks.get(h).map(|i| i.to_string()).unwrap_or("?".into());
+    let mut main = vec![];
+    let mut unc = vec![];
+    for (i, h) in &blocks {
+        if let Some(n) = store.get_block_number(h) {
+            main.push(format!("{}:{}", i, n));
+        }
+        if let Some(hd) = store.get_uncle_header(h) {
+            unc.push(format!("{}:{}", i, hd.number()));
+        }
+    }
+    let mut at = vec![];
+    for n in 0..=top {
+        if let Some(h) = store.get_block_hash(n) {
+            at.push(format!("{}:{}", n, name(&h)));
+        }
+    }
+    let mut txs: Vec<(u64, Byte32)> = ids.txs.iter().map(|(h, i)| (*i, h.clone())).collect();
+    txs.sort_by_key(|e| e.0);
+    let mut txi = vec![];
+    for (i, h) in &txs {
+        if let Some(info) = store.get_transaction_info(h) {
+            txi.push(format!("{}:{}:{}", i, name(&info.block_hash), info.block_number));
+        }
+    }
+    let mut ep = vec![];
+    for e in 1..=top_epoch {
+        if let Some(h) = store.get_epoch_index(e) {
+            ep.push(format!("{}:{}", e, name(&h)));
+        }
+    }
+    let j = |v: Vec<String>| if v.is_empty() { "-".to_string() } else { v.join(",") };
+    format!("main={} uncles={} at={} tx={} ep={}", j(main), j(unc), j(at), j(txi), j(ep))
+}
+
+/// HeaderVerifier on the snapshot, parent-known check, then the chain service — `submit_block`
+fn pipeline(node: &Node, consensus: &Consensus, blk: &BlockView) -> Result<bool, String> {
+    let guard_snapshot = node.shared.snapshot();
+    let snapshot: &ckb_snapshot::Snapshot = &guard_snapshot;
+    match HeaderVerifier::new(snapshot, consensus).verify(&blk.header()) {
+        Err(e) => Err(format!("{:?}", e)),
+        Ok(()) => {
+            if snapshot.get_block_header(&blk.parent_hash()).is_none() {
+                Err("UnknownParent(rpc)".to_string())
+            } else {
+                node.controller().blocking_process_block(Arc::new(blk.clone())).map_err(|e| format!("{:?}", e))
+            }
+        }
+    }
+}
+
+fn verdict_name(verdict: &Result<bool, String>, is_tip: bool) -> String {
+    match verdict {
+        Ok(true) => {
+            if is_tip { "attached".to_string() } else { "stored".to_string() }
+        }
+        Ok(false) => "known".to_string(),
+        Err(d) => format!("err {}", classify(d)),
     }
 }
 
@@ -777,12 +890,30 @@ fn measure_cycles(base: &Path) -> u64 {
     cyc
 }
 
-fn run_case(out: &mut Out, seed: u64, base: &Path, cyc: u64, steps: usize) {
+/// configuration of a reorg case: random window / median / epoch length, roomy limits (the fork
+/// tree needs up to four proposals and three commits per block)
+fn pick_cfg_reorg(rng: &mut Rng, cyc: u64) -> CaseCfg {
+    let close = rng.range(1, 3);
+    let far = close + rng.range(1, 4);
+    CaseCfg {
+        // long epochs keep the whole fork tree inside one epoch (uncles must share the epoch of the
+        // embedding block); short ones put epoch boundaries inside the fork
+        epoch_len: if rng.chance(2, 3) { rng.range(12, 16) } else { rng.range(4, 8) },
+        window: (close, far),
+        median: *rng.pick(&[1usize, 3, 5, 11, 37]),
+        max_props: rng.range(6, 9),
+        max_bytes: 20_000,
+        max_cycles: cyc * 6,
+        defaults: false,
+    }
+}
+
+fn run_case(out: &mut Out, seed: u64, base: &Path, cyc: u64, steps: usize, reorg: bool) {
     let mut rng = Rng::new(seed);
-    let cc = pick_cfg(&mut rng, cyc);
-    out.begin_case(&format!("seed={}", seed));
+    let cc = if reorg { pick_cfg_reorg(&mut rng, cyc) } else { pick_cfg(&mut rng, cyc) };
+    out.begin_case(&if reorg { format!("seed={} reorg=1", seed) } else { format!("seed={}", seed) });
     let t_case = std::time::Instant::now();
-    let consensus = consensus_for(&cc, 24);
+    let consensus = consensus_for(&cc, if reorg { 40 } else { 24 });
     let ncfg = NodeCfg { with_pool: false, ..Default::default() };
     let dir = base.join(format!("case-{}", seed));
     let _ = std::fs::remove_dir_all(&dir);
@@ -814,6 +945,11 @@ fn run_case(out: &mut Out, seed: u64, base: &Path, cyc: u64, steps: usize) {
         pending: vec![],
         salt: 0,
         rules_hit: HashSet::new(),
+        dir: dir.clone(),
+        extra_ref: None,
+        fresh: None,
+        fresh_n: 0,
+        derailed: false,
     };
     c.builder.max_branch_stores = 4;
     if cc.defaults {
@@ -828,8 +964,38 @@ fn run_case(out: &mut Out, seed: u64, base: &Path, cyc: u64, steps: usize) {
     let gid = c.ids.block(&g.hash());
     c.out.op(&format!("genesis id={} num=0 ts={} ep=0/0/0 tgt={} work={}", gid, g.timestamp(), g.compact_target(), u256_to_u64(&g.header().difficulty())), "ok");
     c.described.insert(g.hash());
-    for _ in 0..steps {
-        step(&mut c);
+    if reorg {
+        // warm-up history, fork tree (A -> B -> A'), ordinary steps on the chain that survived (every
+        // rule of `step` then runs on a store with a reorg history, in lock step with a node that
+        // has none), a second fork tree, ordinary steps again
+        let warm = c.rng.range(2, 9) as usize;
+        for _ in 0..warm {
+            if !c.derailed {
+                step(&mut c);
+            }
+        }
+        reorg_scenario(&mut c);
+        let mid = c.rng.range(2, 4) as usize;
+        for _ in 0..mid {
+            if !c.derailed {
+                step(&mut c);
+            }
+        }
+        if steps > 12 {
+            reorg_scenario(&mut c);
+            for _ in 0..2 {
+                if !c.derailed {
+                    step(&mut c);
+                }
+            }
+        }
+        c.dump_index();
+        end_fresh(&mut c);
+    } else {
+        for _ in 0..steps {
+            step(&mut c);
+        }
+        c.dump_index();
     }
     c.check_main_chain();
     let fp = format!("{:?}|{}", cc, c.rules_hit.len());
@@ -839,10 +1005,11 @@ fn run_case(out: &mut Out, seed: u64, base: &Path, cyc: u64, steps: usize) {
     if std::env::var("VERIF_TIMING").is_ok() {
         eprintln!("  submit {:?} (describe-in-submit {:?}, process {:?})", c.t_submit, c.t_describe, c.t_process);
     }
-    let Case { node, builder, refstore, .. } = c;
+    let Case { node, builder, refstore, extra_ref, .. } = c;
     node.stop();
     drop(builder);
     drop(refstore);
+    drop(extra_ref);
     if std::env::var("VERIF_TIMING").is_ok() {
         eprintln!("case seed={} {:?}", seed, t_case.elapsed());
     }
@@ -1623,6 +1790,416 @@ fn switch_back(c: &mut Case) {
     c.rules_hit.insert("switch-back:Valid".into());
 }
 
+// ------------------------------------------------------------------------------------------------
+// context-dependence across reorgs
+// ------------------------------------------------------------------------------------------------
+
+/// Start the lock-step reference node: a new node that receives ONLY the current main chain
+/// (genesis ..= tip, in order, through the chain service). Every block of the main chain was
+/// attached by the node under test, so the reference node must attach it too.
+fn start_fresh(c: &mut Case) {
+    end_fresh(c);
+    c.fresh_n += 1;
+    let dir = c.dir.join(format!("fresh-{}", c.fresh_n));
+    let _ = std::fs::remove_dir_all(&dir);
+    let ncfg = NodeCfg { with_pool: false, ..Default::default() };
+    let f = Node::start(&dir, c.consensus.clone(), &ncfg);
+    let path = c.builder.path_to(&c.tip);
+    for h in path.iter().skip(1) {
+        let b = c.builder.block(h).clone();
+        let r = f.process(&b);
+        if !(r == Ok(true) && f.tip_hash() == b.hash()) {
+            c.out.oracle_fail(
+                "main-chain-block-refused-without-history",
+                &format!("block {} ({:#x}) is on the main chain of the node under test, but a node that receives only that chain answers {:?}", b.number(), b.hash(), r),
+            );
+            break;
+        }
+    }
+    c.out.count("fresh-node:started");
+    c.fresh = Some(f);
+}
+
+fn end_fresh(c: &mut Case) {
+    if let Some(f) = c.fresh.take() {
+        let dir = f.dir.clone();
+        f.stop();
+        let _ = std::fs::remove_dir_all(dir);
+    }
+}
+
+/// the harness's own view of the main chain after a reorg: embedded uncles, uncle candidates,
+/// spendable cells, pending proposals
+fn resync(c: &mut Case, fork_height: u64) {
+    let path = c.builder.path_to(&c.tip);
+    let main: HashSet<Byte32> = path.iter().cloned().collect();
+    c.included.clear();
+    c.included_list.clear();
+    let mut committed: HashSet<Byte32> = HashSet::new();
+    for h in &path {
+        let b = c.builder.block(h).clone();
+        for u in b.uncles().into_iter() {
+            c.included.insert(u.hash());
+            c.included_list.push((u.hash(), u.number()));
+        }
+        for tx in b.transactions() {
+            committed.insert(tx.hash());
+        }
+    }
+    let included = c.included.clone();
+    c.pool.retain(|p| !main.contains(&p.hash()) && !included.contains(&p.hash()));
+    // outputs of transactions that are not committed on this chain do not exist here
+    c.cells.retain(|(op, _)| committed.contains(&op.tx_hash()));
+    // proposals made above the fork point belong to whichever branch made them: forget them
+    c.pending.retain(|(_, hp)| *hp == u64::MAX || *hp <= fork_height);
+}
+
+/// epoch number of a child of `parent`
+fn child_epoch(parent: &BlockView) -> u64 {
+    let e = parent.epoch();
+    if parent.number() == 0 { 0 } else if e.index() + 1 == e.length() { e.number() + 1 } else { e.number() }
+}
+
+fn with_header_dep(tx: &TransactionView, h: &Byte32) -> TransactionView {
+    tx.as_advanced_builder().header_dep(h.clone()).build()
+}
+
+fn ids_of(txs: &[&TransactionView]) -> Vec<ProposalShortId> {
+    txs.iter().map(|t| t.proposal_short_id()).collect()
+}
+
+/// A fork tree on the current tip F, with wc = closest, k = wc + 1:
+///
+/// ```text
+///   F - A1 - A2{U,UA} - .. - Ak[S,X,PA]  ------------------------  A(k+1) - A(k+2) - A(k+3) - VA'
+///    \- B1 - B2 - .. - Bk[S,PB] - B(k+1){U?}  - VB                 (side)    (side)  (heaviest)
+///    \- U, UA (never submitted as blocks: uncles)
+/// ```
+///
+/// A is the main chain first; B becomes the heaviest with B(k+1) (reorg A -> B); VB and the probes
+/// on B's tip are judged in B's context; then A grows again and A(k+3) switches back (B -> A'),
+/// re-attaching A1..Ak that were verified long ago; VA' and the probes on A' are judged in A's
+/// context. Contexts maintained by attach/detach that differ between the branches:
+///
+/// * uncle index: U and UA are embedded by A2; U again by B(k+1) or VB (valid only where A2 is not
+///   an ancestor); V (child of UA) is a proper uncle only under A; W (child of A1) only where A1 is
+///   on the main chain or an embedded uncle; A1 itself is a proper uncle only under B, B1 only under A
+/// * proposals: PA is proposed by A blocks only, PB by B blocks only, PU only inside U (so it is
+///   proposed where and when U is embedded)
+/// * cells: S and X spend genesis-era cells; A commits both, B commits S early and X only in VB
+///   (valid where A's commit is not an ancestor); Y spends PA's output (exists only under A)
+/// * header deps: ZA names A1, ZB names B1 (each valid only where that block is on the main chain)
+///
+/// Oracles: the intents (built valid / built violating in its own context), the model (contexts
+/// recomputed from the ancestor chain alone), and the lock-step reference node that never saw the
+/// abandoned branch.
+fn reorg_scenario(c: &mut Case) {
+    if c.derailed {
+        return;
+    }
+    end_fresh(c);
+    let (wc, wf) = (c.consensus.tx_proposal_window().closest(), c.consensus.tx_proposal_window().farthest());
+    let _ = wf;
+    let k = (wc + 1) as usize;
+    if c.cells.len() < 8 || c.consensus.max_block_proposals_limit() < 5 {
+        c.out.count("reorg:skipped");
+        return;
+    }
+    let f_hash = c.tip.clone();
+    let f_n = c.height();
+    let take = |c: &mut Case| -> TransactionView { fresh_tx(c).expect("cell") };
+    let tx_s = take(c);
+    let tx_x = take(c);
+    let tx_pa = take(c);
+    let tx_pb = take(c);
+    let tx_pu = take(c);
+    let za0 = take(c);
+    let zb0 = take(c);
+    // Y spends the first output of PA
+    let tx_y = {
+        let cap: u64 = tx_pa.outputs().get(0).unwrap().capacity().unpack();
+        let salt = c.next_salt();
+        spend_tx(&[(OutPoint::new(tx_pa.hash(), 0), cap)], 1, 1000 + salt, salt)
+    };
+    let ts = |c: &mut Case| -> u64 {
+        c.max_ts += 1 + c.rng.below(3);
+        c.max_ts
+    };
+    let max_uncles = c.consensus.max_uncles_num();
+
+    // ---------------------------------------------------------------- branch A (extends the main chain)
+    let mut a: Vec<BlockView> = vec![];
+    let mut u_blk: Option<BlockView> = None;
+    let mut ua_blk: Option<BlockView> = None;
+    for i in 1..=k {
+        let parent = if i == 1 { f_hash.clone() } else { a[i - 2].hash() };
+        let salt = c.next_salt();
+        let t = ts(c);
+        let mut spec = BlockSpec { salt, timestamp: Some(t), ..Default::default() };
+        if i == 1 {
+            spec.proposals = ids_of(&[&tx_s, &tx_x, &tx_pa]);
+        } else {
+            spec.proposals = ids_of(&[&tx_pa]);
+        }
+        if i == 2 {
+            // U and UA: siblings of A1 (children of F), embedded here if they share this block's epoch
+            let a1 = &a[0];
+            if child_epoch(a1) == a1.epoch().number() && max_uncles >= 2 {
+                let u = sibling_of(a1, 1, ids_of(&[&tx_pu]));
+                let ua = sibling_of(a1, 2, vec![]);
+                c.builder.blocks.insert(u.hash(), u.clone());
+                c.builder.blocks.insert(ua.hash(), ua.clone());
+                spec.uncles = vec![u.as_uncle(), ua.as_uncle()];
+                u_blk = Some(u);
+                ua_blk = Some(ua);
+                c.out.count("reorg:A2-embeds-U-UA");
+            } else {
+                c.out.count("reorg:no-uncles(epoch-boundary)");
+            }
+        }
+        if i == k {
+            spec.txs = vec![tx_s.clone(), tx_x.clone(), tx_pa.clone()];
+        }
+        let blk = c.builder.build(&parent, &spec);
+        c.submit(&blk, t, Intent::Valid, "reorg:A");
+        if c.node.tip_hash() != blk.hash() {
+            c.derailed = true;
+            return;
+        }
+        c.refstore.attach(&c.consensus, &blk);
+        a.push(blk);
+    }
+    let a1 = a[0].clone();
+
+    // ---------------------------------------------------------------- branch B (side, then heaviest)
+    let mut ref_b = RefStore::new(&c.consensus, &c.dir.join(format!("refstore-b-{}", c.salt)));
+    for h in c.builder.path_to(&f_hash).iter().skip(1) {
+        let b = c.builder.block(h).clone();
+        ref_b.attach(&c.consensus, &b);
+    }
+    c.extra_ref = Some(ref_b);
+    let u_in_trigger = c.rng.chance(1, 2);
+    let mut u_on_b = false;
+    let mut b: Vec<BlockView> = vec![];
+    for i in 1..=(k + 1) {
+        let parent = if i == 1 { f_hash.clone() } else { b[i - 2].hash() };
+        let salt = c.next_salt();
+        let t = ts(c);
+        let mut spec = BlockSpec { salt, timestamp: Some(t), ..Default::default() };
+        if i == 1 {
+            spec.proposals = ids_of(&[&tx_s, &tx_x, &tx_pb]);
+        } else {
+            // ZA / ZB are completed with their header deps once B1 exists (below): propose the final ids
+            spec.proposals = vec![];
+        }
+        if i == k {
+            spec.txs = vec![tx_s.clone(), tx_pb.clone()];
+        }
+        let pb = if i == 1 { c.builder.block(&f_hash).clone() } else { b[i - 2].clone() };
+        if i == k + 1 && u_in_trigger {
+            if let Some(u) = &u_blk {
+                if child_epoch(&pb) == u.epoch().number() {
+                    spec.uncles = vec![u.as_uncle()];
+                    u_on_b = true;
+                }
+            }
+        }
+        if i >= 2 {
+            let za = with_header_dep(&za0, &a1.hash());
+            let zb = with_header_dep(&zb0, &b[0].hash());
+            spec.proposals = ids_of(&[&tx_x, &tx_y, &za, &zb]);
+        }
+        let blk = c.builder.build(&parent, &spec);
+        let (intent, rule) = if i <= k {
+            (Intent::Side, "reorg:B-side")
+        } else if u_on_b {
+            (Intent::Valid, "reorg:B-heaviest-reembeds-uncle-of-detached")
+        } else {
+            (Intent::Valid, "reorg:B-heaviest")
+        };
+        c.submit(&blk, t, intent, rule);
+        c.extra_ref.as_mut().unwrap().attach(&c.consensus, &blk);
+        b.push(blk);
+    }
+    let b1 = b[0].clone();
+    let tx_za = with_header_dep(&za0, &a1.hash());
+    let tx_zb = with_header_dep(&zb0, &b1.hash());
+    if c.node.tip_hash() != b[k].hash() {
+        // the reorg did not happen (already reported by the Valid intent)
+        c.out.count("reorg:A->B-refused");
+        c.derailed = true;
+        c.dump_index();
+        return;
+    }
+    c.tip = b[k].hash();
+    c.out.count("reorg:A->B");
+    if a.iter().chain(b.iter()).any(|x| x.epoch().index() == 0) {
+        c.out.count("reorg:epoch-boundary-inside-fork");
+    }
+    start_fresh(c);
+    c.dump_index();
+
+    // ---------------------------------------------------------------- probes on B's tip
+    {
+        let parent = b[k].clone();
+        let salt = c.next_salt();
+        let t = ts(c);
+        // the valid block on B: commits X (A's commit of X is not an ancestor), ZB (B1 is on the main
+        // chain), embeds A1 (detached, child of F) and U if nobody on B did
+        let mut spec = BlockSpec { salt, timestamp: Some(t), txs: vec![tx_x.clone(), tx_zb.clone()], ..Default::default() };
+        let ep = child_epoch(&parent);
+        if a1.epoch().number() == ep {
+            spec.uncles.push(a1.as_uncle());
+        }
+        if let Some(u) = &u_blk {
+            if !u_on_b && u.epoch().number() == ep && spec.uncles.len() < max_uncles {
+                spec.uncles.push(u.as_uncle());
+                u_on_b = true;
+            }
+        }
+        let embeds_a1 = spec.uncles.iter().any(|x| x.hash() == a1.hash());
+        // built by hand from a plain valid block so that the builder store stays at the parent until
+        // the probes are described: the probes are derived from `plain` by surgery
+        let plain = c.builder.build(&parent.hash(), &BlockSpec { salt, timestamp: Some(t), ..Default::default() });
+        let mut probes: Vec<(BlockView, &'static str)> = vec![];
+        let mk_txs = |extra: Vec<TransactionView>| with_txs(&plain, { let mut v = plain.transactions(); v.extend(extra); v });
+        probes.push((mk_txs(vec![tx_pa.clone()]), "reorg:B:commit-proposed-on-A-only"));
+        probes.push((mk_txs(vec![tx_y.clone()]), "reorg:B:spend-output-created-on-A-only"));
+        probes.push((mk_txs(vec![tx_za.clone()]), "reorg:B:header-dep-on-detached-block"));
+        if u_blk.is_some() && !u_on_b {
+            probes.push((mk_txs(vec![tx_pu.clone()]), "reorg:B:commit-proposed-in-uncle-embedded-on-A-only"));
+        }
+        if let Some(ua) = &ua_blk {
+            if ua.number() + 1 < plain.number() {
+                let v = craft_uncle(&plain, &ua.hash(), ua.number() + 1, salt);
+                probes.push((plain.as_advanced_builder().set_uncles(vec![v]).build(), "reorg:B:uncle-child-of-uncle-embedded-on-A-only"));
+            }
+        }
+        if a1.number() + 1 < plain.number() {
+            let w = craft_uncle(&plain, &a1.hash(), a1.number() + 1, salt + 1);
+            probes.push((plain.as_advanced_builder().set_uncles(vec![w]).build(), "reorg:B:uncle-child-of-detached-block"));
+        }
+        {
+            let all: Vec<&BlockView> = probes.iter().map(|p| &p.0).collect();
+            c.describe_all(&parent.hash(), &all);
+        }
+        for (p, rule) in &probes {
+            c.bad.insert(p.hash());
+            c.submit(p, t, Intent::Invalid, rule);
+        }
+        if c.derailed {
+            c.dump_index();
+            return;
+        }
+        let salt = c.next_salt();
+        spec.salt = salt;
+        let vb = c.builder.build(&parent.hash(), &spec);
+        c.submit(&vb, t, Intent::Valid, if embeds_a1 { "reorg:B:valid-only-here(X,ZB,uncle=detached-A1)" } else { "reorg:B:valid-only-here(X,ZB)" });
+        c.dump_index();
+        if c.node.tip_hash() != vb.hash() {
+            c.derailed = true;
+            return;
+        }
+        c.extra_ref.as_mut().unwrap().attach(&c.consensus, &vb);
+        c.tip = vb.hash();
+        b.push(vb);
+    }
+
+    // one case in three stays on B
+    if c.rng.chance(1, 3) {
+        // `refstore` follows the main chain
+        let rb = c.extra_ref.take().unwrap();
+        let ra = std::mem::replace(&mut c.refstore, rb);
+        drop(ra);
+        resync(c, f_n);
+        c.out.count("reorg:ends-on-B");
+        c.rules_hit.insert("reorg:A->B".into());
+        return;
+    }
+    end_fresh(c);
+
+    // ---------------------------------------------------------------- back to A: A(k+1), A(k+2) side, A(k+3) heaviest
+    for i in (k + 1)..=(k + 3) {
+        let parent = a[i - 2].hash();
+        let salt = c.next_salt();
+        let t = ts(c);
+        let spec = BlockSpec { salt, timestamp: Some(t), proposals: ids_of(&[&tx_y, &tx_za, &tx_zb]), ..Default::default() };
+        let blk = c.builder.build(&parent, &spec);
+        let (intent, rule) = if i < k + 3 { (Intent::Side, "reorg:A'-side") } else { (Intent::Valid, "reorg:A'-heaviest(re-attaches-verified-blocks)") };
+        c.submit(&blk, t, intent, rule);
+        c.refstore.attach(&c.consensus, &blk);
+        a.push(blk);
+    }
+    if c.node.tip_hash() != a[k + 2].hash() {
+        c.out.count("reorg:B->A'-refused");
+        c.derailed = true;
+        c.dump_index();
+        return;
+    }
+    c.tip = a[k + 2].hash();
+    c.extra_ref = None;
+    c.out.count("reorg:A->B->A'");
+    start_fresh(c);
+    c.dump_index();
+    {
+        let parent = a[k + 2].clone();
+        let salt = c.next_salt();
+        let t = ts(c);
+        let ep = child_epoch(&parent);
+        let plain = c.builder.build(&parent.hash(), &BlockSpec { salt, timestamp: Some(t), ..Default::default() });
+        let mk_txs = |extra: Vec<TransactionView>| with_txs(&plain, { let mut v = plain.transactions(); v.extend(extra); v });
+        let mut probes: Vec<(BlockView, &'static str)> = vec![];
+        probes.push((mk_txs(vec![tx_x.clone()]), "reorg:A':spend-again-what-A-spent(B-spent-it-too)"));
+        probes.push((mk_txs(vec![tx_pb.clone()]), "reorg:A':commit-proposed-on-B-only"));
+        probes.push((mk_txs(vec![tx_zb.clone()]), "reorg:A':header-dep-on-detached-block"));
+        if let Some(u) = &u_blk {
+            if u.epoch().number() == ep {
+                probes.push((plain.as_advanced_builder().set_uncles(vec![u.as_uncle()]).build(), "reorg:A':uncle-embedded-by-reattached-block"));
+            }
+        }
+        if a1.epoch().number() == ep {
+            probes.push((plain.as_advanced_builder().set_uncles(vec![a1.as_uncle()]).build(), "reorg:A':uncle-is-reattached-block"));
+        }
+        {
+            let all: Vec<&BlockView> = probes.iter().map(|p| &p.0).collect();
+            c.describe_all(&parent.hash(), &all);
+        }
+        for (p, rule) in &probes {
+            c.bad.insert(p.hash());
+            c.submit(p, t, Intent::Invalid, rule);
+        }
+        if c.derailed {
+            c.dump_index();
+            return;
+        }
+        // valid only here: Y (PA's output exists again), ZA (A1 is on the main chain again), V (child
+        // of UA, which the re-attached A2 embeds), B1 (detached, child of F)
+        let salt = c.next_salt();
+        let mut spec = BlockSpec { salt, timestamp: Some(t), txs: vec![tx_y.clone(), tx_za.clone()], ..Default::default() };
+        let mut rule = "reorg:A':valid-only-here(Y,ZA)";
+        if let Some(ua) = &ua_blk {
+            if ua.epoch().number() == ep {
+                spec.uncles.push(craft_uncle(&plain, &ua.hash(), ua.number() + 1, salt));
+                rule = "reorg:A':valid-only-here(Y,ZA,uncle-child-of-UA)";
+            }
+        }
+        if b1.epoch().number() == ep && spec.uncles.len() < max_uncles {
+            spec.uncles.push(b1.as_uncle());
+        }
+        let va = c.builder.build(&parent.hash(), &spec);
+        c.submit(&va, t, Intent::Valid, rule);
+        c.dump_index();
+        if c.node.tip_hash() != va.hash() {
+            c.derailed = true;
+            return;
+        }
+        c.refstore.attach(&c.consensus, &va);
+        c.tip = va.hash();
+    }
+    resync(c, f_n);
+    c.rules_hit.insert("reorg:A->B->A'".into());
+}
+
 /// a lighter side branch whose first block breaks a contextual rule: stored unverified; the branch
 /// then grows until it is the heaviest → the attempt must fail as a whole
 fn side_branch(c: &mut Case) {
@@ -1788,7 +2365,7 @@ pub fn run(opts: &Opts) {
                     continue;
                 }
                 if let Some(s) = l.split_whitespace().find_map(|t| t.strip_prefix("seed=")) {
-                    seeds.push(s.parse::<u64>().expect("seed"));
+                    seeds.push((s.parse::<u64>().expect("seed"), l.split_whitespace().any(|t| t == "reorg=1")));
                 }
             }
         }
@@ -1796,8 +2373,8 @@ pub fn run(opts: &Opts) {
             eprintln!("replay file has no `case <n> seed=<s>` / `scenario=<name>` line");
             std::process::exit(2);
         }
-        for s in seeds {
-            run_case(&mut out, s, &base, cyc, 30);
+        for (s, reorg) in seeds {
+            run_case(&mut out, s, &base, cyc, 30, reorg);
         }
     } else {
         // in-process-only observations, counted in the histogram (never an oracle failure)
@@ -1805,10 +2382,15 @@ pub fn run(opts: &Opts) {
             run_scenario(&mut out, sc, &base);
         }
         let cases = if opts.thorough() { 200 * opts.scale } else { 14 * opts.scale };
+        // fork trees first (context-dependence across reorgs), then the long single-chain histories
+        let reorg_cases = if opts.thorough() { 120 * opts.scale } else { 12 * opts.scale };
+        for i in 0..reorg_cases {
+            run_case(&mut out, opts.seed.wrapping_mul(1_000_003).wrapping_add(500_000 + i), &base, cyc, 30, true);
+        }
         for i in 0..cases {
-            run_case(&mut out, opts.seed.wrapping_mul(1_000_003).wrapping_add(i), &base, cyc, 30);
+            run_case(&mut out, opts.seed.wrapping_mul(1_000_003).wrapping_add(i), &base, cyc, 30, false);
         }
     }
     let _ = std::fs::remove_dir_all(&base);
-    out.finish("a case = one real node + one random consensus configuration (epoch length, proposal window, median count, proposal/size/cycle limits, or all defaults) and a 30-step history; every step builds one valid block on the tip (random proposals, window-edge commits, uncles), 2-4 single-rule violations of it, sometimes the valid/invalid pair of a boundary (timestamp = median / median+1, now+15s / +1ms, size limit, extension 96/97), sometimes a lighter side branch starting with a violating block that is later made the heaviest, sometimes a re-submission of an attached block; non-trivial iff at least 6 distinct (rule, side) pairs were exercised; distinct by configuration");
+    out.finish("a fork-tree case = one real node, a random window / median / epoch length, a warm-up history, then twice: branch A (proposals, two uncles, commits) extended on the tip, a longer branch B from the same fork point made the heaviest (reorg), probes on B valid only in A's context (uncle descending from an A-only uncle or from a detached block, commit of ids proposed on A / in an A-only uncle, spend of an A-only output, header dep on a detached block) and one block valid only in B's context (re-embeds the uncle of the detached block, embeds the detached block, spends again what A spent, header dep on B), then A made the heaviest again (re-attaching long-verified blocks) with the mirrored probes, every block after a reorg also given to a lock-step node that only ever received the main chain, store indexes dumped and compared; a single-chain case = one real node + one random consensus configuration (epoch length, proposal window, median count, proposal/size/cycle limits, or all defaults) and a 30-step history; every step builds one valid block on the tip (random proposals, window-edge commits, uncles), 2-4 single-rule violations of it, sometimes the valid/invalid pair of a boundary (timestamp = median / median+1, now+15s / +1ms, size limit, extension 96/97), sometimes a lighter side branch starting with a violating block that is later made the heaviest, sometimes a re-submission of an attached block; non-trivial iff at least 6 distinct (rule, side) pairs were exercised; distinct by configuration");
 }
